@@ -193,7 +193,7 @@ func allProps() []Prop {
 		{ID: "C04", Jobs: cat(cnt, initJ, usc, errpick, pick, done), Assume: commonAssume, Bounds: gbBounds},
 		{ID: "C05", Jobs: cat(allGb, keysJobs), Panics: true, Assume: commonAssume, Bounds: gbBounds},
 		{ID: "C06", Jobs: allGb, Progress: true, Assume: commonAssume, Bounds: gbBounds},
-		{ID: "C07", Jobs: cat(initJ, usc, done), Assume: commonAssume, Bounds: gbBounds},
+		{ID: "C07", Jobs: cat(initJ, usc, done, []Job{{Dir: gcp, Harness: gcp, Entry: "VerifH_window", TmoMs: 240000, Note: "independent mathematical form of the detection window"}}), Assume: commonAssume, Bounds: gbBounds},
 		{ID: "C08", Jobs: cat(usc, pick, done), Assume: commonAssume, Bounds: gbBounds},
 		{ID: "C09", Jobs: cat(rr, rrwin, pickRR, usc), Assume: commonAssume, Bounds: gbBounds},
 		{ID: "C20", Jobs: cat(initJ, uccs, usc, reserr, done), Assume: commonAssume, Bounds: gbBounds},
